@@ -23,7 +23,7 @@ def main(n=160, seed=7):
         if nm in ("exp",):
             x = x % 60 if x > 0 else -((-x) % 60)
         if nm in ("tanh",):
-            x = x % 12 if x > 0 else -((-x) % 12)
+            x = x % 30 if x > 0 else -((-x) % 30)
         if nm in ("cos", "sin"):
             x = x % 7 if x > 0 else -((-x) % 7)
         args.append((nm, x))
